@@ -99,6 +99,7 @@ func genAliasCase(w *world) {
 		}
 		w.root()
 	}
+	genDivergingStart(w)
 	w.seek(nil, nil, false) // (flushes, then scans the stored trie)
 	for _, k := range all {
 		w.get(k)
